@@ -1,0 +1,86 @@
+//! Verification hooks (feature `verif-hooks`, off by default).
+//!
+//! A thread-local sink receives [`VerifEvent`]s from a handful of call sites in the scanner, the
+//! loader and the decoder. With the feature disabled this module and every call site vanish.
+
+use std::cell::RefCell;
+
+/// An observation made at one of the hook sites.
+#[derive(Clone, Debug, PartialEq, Eq)]
+pub enum VerifEvent {
+    /// H1: one iteration of the byte-decoding loop (`saphyr::encoding::decode_loop`).
+    DecodeIter {
+        /// Total number of input bytes consumed so far.
+        bytes_read: usize,
+        /// Length of the input.
+        input_len: usize,
+        /// Current length of the output string.
+        out_len: usize,
+        /// Current capacity of the output string.
+        out_cap: usize,
+    },
+    /// H2: one `fetch_next_token` call returned successfully (`Scanner::fetch_more_tokens`).
+    ScanFetch {
+        /// Index of the scanner cursor after the call.
+        index: usize,
+        /// Tokens handed out so far plus tokens queued.
+        tokens: usize,
+    },
+    /// H3: scanner configuration right after a document indicator was recognised
+    /// (`Scanner::fetch_document_indicator`).
+    DocIndicator {
+        /// Current block indentation.
+        indent: isize,
+        /// Depth of the indentation stack.
+        indents: usize,
+        /// Flow nesting level.
+        flow_level: usize,
+        /// Number of simple-key candidates that are still possible.
+        possible_keys: usize,
+        /// Depth of the simple-key stack.
+        simple_keys: usize,
+        /// Depth of the implicit flow mapping state stack.
+        implicit_mappings: usize,
+        /// Value of the `flow_mapping_started` flag.
+        flow_mapping_started: bool,
+    },
+    /// H4: the document loader finished handling one event (`YamlLoader::on_event`).
+    LoaderEvent {
+        /// Depth of the stack of open nodes.
+        doc_stack: usize,
+        /// Depth of the stack of pending mapping keys.
+        key_stack: usize,
+        /// Number of mappings among the open nodes.
+        open_mappings: usize,
+        /// Whether the event was a `DocumentEnd`.
+        document_end: bool,
+    },
+}
+
+type Sink = Box<dyn FnMut(VerifEvent)>;
+
+thread_local! {
+    static SINK: RefCell<Option<Sink>> = const { RefCell::new(None) };
+}
+
+/// Install a sink for the current thread, replacing any previous one.
+pub fn set_sink(sink: Sink) {
+    SINK.with(|s| *s.borrow_mut() = Some(sink));
+}
+
+/// Remove the sink of the current thread.
+pub fn clear_sink() {
+    SINK.with(|s| *s.borrow_mut() = None);
+}
+
+/// Deliver an event to the sink of the current thread, if any.
+pub fn emit(ev: VerifEvent) {
+    SINK.with(|s| {
+        // `try_borrow_mut`: a sink that itself drives the library must not re-enter.
+        if let Ok(mut guard) = s.try_borrow_mut() {
+            if let Some(sink) = guard.as_mut() {
+                sink(ev);
+            }
+        }
+    });
+}
